@@ -357,8 +357,11 @@ def sdOf (vs : List Int) : SemMin.SD :=
 literals after the semantic minimiser (with equality merging) has rewritten it relative to the
 original domains. `none`: the nogood is inconsistent, the clause holds trivially and nothing is
 stored. -/
+def sdOfVar (orig : Doms) (x : Nat) : SemMin.SD :=
+  if x < orig.length then sdOf (dom orig x) else { lb := 0, ub := 0, holes := [] }
+
 def minClause (orig : Doms) (ls : List Atom) : Option (List Atom) :=
-  (SemMin.minimise (fun x => sdOf (dom orig x)) (ls.map Atom.neg) true).map (fun ng => ng.map Atom.neg)
+  (SemMin.minimise (sdOfVar orig) (ls.map Atom.neg) true).map (fun ng => ng.map Atom.neg)
 
 def clauseInst (orig : Doms) (ls : List Atom) : List PropInst :=
   match minClause orig ls with
